@@ -186,7 +186,10 @@ func (rh *RetryEventHandler) HandleEvents(startBlock *big.Int, endBlock *big.Int
 				}()
 				er, err := DecodeRetryEvent(evt.Fields)
 				if err != nil {
-					return err
+					// an undecodable retry event can never become decodable: failing the whole range for it would
+					// keep the listener on this range forever and suppress the other retry events of the range
+					log.Error().Err(err).Msgf("Unable to decode retry event %+v", evt)
+					return nil
 				}
 				// (latestBlockNumber - event.DepositOnBlockHeight) == blockConfirmations
 				if big.NewInt(finalizedBlockNumber.Int64()).Cmp(er.DepositOnBlockHeight.Int) == -1 {
